@@ -160,8 +160,18 @@ func vcRunC18(t *vcTrial, ks []int, pickers int, random bool) {
 		// ---- every returned poller runs
 		for p := range counts {
 			if err := vcProbePoll(p, 5*time.Second); err != nil {
+				// 5 s is patience, not a verdict: a loop whose exit is in the trace is dead for certain;
+				// otherwise the probe is repeated with a minute of patience (a loaded machine is slow)
+				exited := vcSeenSince(mark, vpPollExit, vcObjID(p))
+				if !exited {
+					if err2 := vcProbePoll(p, time.Minute); err2 == nil {
+						t.Stat("slow_probes", 1)
+						probes++
+						continue
+					}
+				}
 				if vcRunnerProgress(5, 5*time.Second) {
-					t.Violate("C18", "dead_poller", "phase %d (k=%d): Pick handed out a poller that is not running: %v", phase, k, err)
+					t.Violate("C18", "dead_poller", "phase %d (k=%d): Pick handed out a poller that is not running (its loop's exit is in the trace: %v): %v", phase, k, exited, err)
 				} else {
 					t.Inconclusive("probe failed and the canary made no progress")
 				}
